@@ -365,7 +365,15 @@ def r3b_dataset_mask(ctx, rid="C14.R3"):
         ctx.violation(rid, gv, gv.node, f"get_values_patient writes NaN where `mask {near['op']} {near['z']}` (mask == 0 expected): observed values are read back as missing and missing ones as zeros",
                       construct="NaN restored from mask")
     elif ok:
-        ctx.ok(rid, gv, gv.node, "NaN restored from the mask on a clone", construct="NaN restored from mask")
+        # ... for every dataset: the write is under no condition (a shortcut 'when nothing is missing' needs a test that is exactly that)
+        gcfg = CFG(gv.node)
+        nanw = [n for n, st in gcfg.stmt.items() if isinstance(st, ast.Assign) and isinstance(st.targets[0], ast.Subscript) and "nan" in U(st.value).lower()]
+        gds = [(gcfg.stmt[h], lab) for n in nanw for h, lab in gcfg.if_guards(n)]
+        if gds:
+            ctx.violation(rid, gv, gds[0][0], f"the NaNs are only restored when `{U(gds[0][0].test)[:70]}`: for the datasets where the test fails although entries are missing, the zero-filled values "
+                          "are read back as observations (`to_pandas` returns 0.0 where the table had NaN)", construct="NaN restored from mask")
+        else:
+            ctx.ok(rid, gv, gv.node, "NaN restored from the mask on a clone", construct="NaN restored from mask")
     elif "$0.mask" in gs and "nan" in gs and ("clone" in gs or "copy" in gs):
         ctx.unknown(rid, gv, gv.node, "get_values_patient is neither the confirmed form nor lacks an essential part: cannot decide statically", construct="NaN restored from mask")
     else:
